@@ -254,7 +254,9 @@ func c09Run(c *mc.Ctx) {
 		ci, ok := canon[bits]
 		if !ok {
 			canon[bits] = len(encs)
-			encs = append(encs, c09Enc{src, bits, e})
+			// kept with dirty spare capacity (a window into a larger buffer): Cmp/CmpUpto/StrCmpUpto
+			// must not read beyond the length of an encoding
+			encs = append(encs, c09Enc{src, bits, gen.DirtyBytes(e)})
 		} else {
 			r, pp := bsCmp(e, encs[ci].enc)
 			r2, pp2 := bsCmp(encs[ci].enc, e)
@@ -318,7 +320,7 @@ func c09Run(c *mc.Ctx) {
 				t = t[:len(b.bits)]
 			}
 			want := ref.Sign(t, b.bits)
-			buf := []byte(a)
+			buf := gen.DirtyBytes([]byte(a)) // the key, too, is a window into a larger buffer
 			got, p := bsCmpUpto(buf, b.enc)
 			bs := b.src
 			if p || got != want {
@@ -380,7 +382,7 @@ func c09Run(c *mc.Ctx) {
 							c.Fail(4<<40|int64(l)<<8, "Len", "Len/big", c09Case{A: src}, p2+fmt.Sprint(ln), fmt.Sprint(len(bits)))
 						}
 						evals++
-						big = append(big, c09Enc{src, bits, e})
+						big = append(big, c09Enc{src, bits, gen.DirtyBytes(e)})
 					}
 				}
 			}
@@ -399,7 +401,7 @@ func c09Run(c *mc.Ctx) {
 					t = t[:len(b.bits)]
 				}
 				want := ref.Sign(t, b.bits)
-				if got, pp := bsCmpUpto([]byte(plain), b.enc); pp || got != want {
+				if got, pp := bsCmpUpto(gen.DirtyBytes([]byte(plain)), b.enc); pp || got != want {
 					c.Fail(4<<40|int64(i)<<20|int64(j), "CmpUpto", "CmpUpto/big", c09Case{A: b.src, Plain: gen.Bytes(plain)}, "", "")
 				}
 				if got, pp := bsStrCmpUpto(c09Frames[0].F, plain, b.enc); pp || got != want {
@@ -421,6 +423,9 @@ func c09Run(c *mc.Ctx) {
 func c09Judge(kind string, cs c09Case) (got, want string) {
 	abits := c09Bits(string(cs.A.S), cs.A.From, cs.A.To)
 	ea, p := bsNew(string(cs.A.S), cs.A.From, cs.A.To)
+	if kind != "New" && kind != "Len" && p == "" {
+		ea = gen.DirtyBytes(ea)
+	}
 	switch kind {
 	case "New":
 		return p + fmt.Sprintf("%x", ea), "an encoding of " + abits
@@ -436,6 +441,7 @@ func c09Judge(kind string, cs c09Case) (got, want string) {
 		if p != "" || p2 != "" {
 			return "New: " + p + p2, ""
 		}
+		eb = gen.DirtyBytes(eb)
 		r, pp := bsCmp(ea, eb)
 		r2, pp2 := bsCmp(eb, ea)
 		return fmt.Sprintf("Cmp(a,b)=%d Cmp(b,a)=%d panics=%v,%v (a=%x b=%x)", r, r2, pp, pp2, ea, eb),
@@ -451,7 +457,7 @@ func c09Judge(kind string, cs c09Case) (got, want string) {
 		}
 		w := ref.Sign(t, abits)
 		if kind == "CmpUpto" {
-			r, pp := bsCmpUpto([]byte(plain), ea)
+			r, pp := bsCmpUpto(gen.DirtyBytes([]byte(plain)), ea)
 			return fmt.Sprintf("%d panic=%v", r, pp), fmt.Sprintf("%d panic=false", w)
 		}
 		if kind == "CmpUpto/writes" {
